@@ -14,6 +14,9 @@ class Unfoldable(Exception):
     pass
 
 
+_NORETURN = object()
+
+
 class Rx:
     """A folded re.compile(pattern, flags) value."""
 
@@ -471,6 +474,9 @@ class Folder:
                 dotted = recv.dotted + "." + f.attr
                 return self._ext_call(dotted, args, kwargs)
             if isinstance(recv, tuple) and recv and recv[0] in ("module", "class"):
+                r2 = self.p.resolve_attr(recv, f.attr)
+                if r2 and r2[0] == "func" and (recv[0] == "module" or r2[1].is_staticmethod):
+                    return self.call_function(r2[1], args, kwargs)
                 raise Unfoldable("call into package: %s" % unparse(f))
             for ty, names in _PURE_METHODS.items():
                 if type(recv) is ty and f.attr in names:
@@ -496,8 +502,114 @@ class Folder:
                 raise Unfoldable("call of unknown %s" % f.id)
             if r[0] == "ext":
                 return self._ext_call(r[1], args, kwargs)
+            if r[0] == "func":
+                return self.call_function(r[1], args, kwargs)
             raise Unfoldable("call into package: %s" % f.id)
         raise Unfoldable("call %s" % unparse(f))
+
+    # -- compile-time evaluation of simple pure package functions over constants ---
+    _MUTATORS = {"append", "extend", "insert", "update", "add", "setdefault"}
+
+    def call_function(self, fn, args, kwargs, depth=0):
+        """Fold a call of a package function whose body is straight-line / loops / ifs over constants
+        (no I/O, no attribute stores).  Used for helper functions that build patterns and tables."""
+        if depth > 6:
+            raise Unfoldable("fold recursion")
+        if fn.vararg or fn.kwarg:
+            raise Unfoldable("varargs function %s" % fn.name)
+        env = {}
+        params = list(fn.params)
+        if len(args) > len(params):
+            raise Unfoldable("too many arguments for %s" % fn.name)
+        for pn, a in zip(params, args):
+            env[pn] = a
+        for k, v in kwargs.items():
+            if k not in params and k not in fn.kwonly:
+                raise Unfoldable("unknown keyword %s" % k)
+            env[k] = v
+        for pn in params + list(fn.kwonly):
+            if pn not in env:
+                d = fn.defaults.get(pn)
+                if d is None:
+                    raise Unfoldable("missing argument %s of %s" % (pn, fn.name))
+                env[pn] = self.eval(d, fn.module, cls=fn.cls)
+        self._steps = getattr(self, "_steps", 0)
+        r = self._run_block(fn.node.body, fn, env)
+        if r is _NORETURN:
+            return None
+        return r[1]
+
+    def _run_block(self, stmts, fn, env):
+        for st in stmts:
+            self._steps += 1
+            if self._steps > 200000:
+                raise Unfoldable("fold budget exceeded")
+            r = self._run_stmt(st, fn, env)
+            if r is not _NORETURN:
+                return r
+        return _NORETURN
+
+    def _assign(self, target, val, fn, env):
+        if isinstance(target, ast.Name):
+            env[target.id] = val
+        elif isinstance(target, (ast.Tuple, ast.List)):
+            vals = list(val)
+            if len(vals) != len(target.elts):
+                raise Unfoldable("unpack mismatch")
+            for t, v in zip(target.elts, vals):
+                self._assign(t, v, fn, env)
+        elif isinstance(target, ast.Subscript) and isinstance(target.value, ast.Name) and target.value.id in env and isinstance(env[target.value.id], (list, dict)):
+            env[target.value.id][self.eval(target.slice, fn.module, cls=fn.cls, env=env)] = val
+        else:
+            raise Unfoldable("assignment target %s" % type(target).__name__)
+
+    def _run_stmt(self, st, fn, env):
+        ev = lambda n: self.eval(n, fn.module, cls=fn.cls, env=env)
+        if isinstance(st, ast.Expr):
+            v = st.value
+            if isinstance(v, ast.Constant):
+                return _NORETURN
+            if isinstance(v, ast.Call) and isinstance(v.func, ast.Attribute) and isinstance(v.func.value, ast.Name) and v.func.value.id in env and v.func.attr in self._MUTATORS:
+                obj = env[v.func.value.id]
+                if not isinstance(obj, (list, dict, set)):
+                    raise Unfoldable("mutation of non-container")
+                getattr(obj, v.func.attr)(*[ev(a) for a in v.args])
+                return _NORETURN
+            if isinstance(v, ast.Call) and isinstance(v.func, ast.Attribute) and isinstance(v.func.value, ast.Name) and v.func.value.id == "logging":
+                return _NORETURN
+            raise Unfoldable("expression statement %s" % unparse(v)[:40])
+        if isinstance(st, ast.Assign):
+            val = ev(st.value)
+            for t in st.targets:
+                self._assign(t, val, fn, env)
+            return _NORETURN
+        if isinstance(st, ast.AnnAssign):
+            if st.value is not None:
+                self._assign(st.target, ev(st.value), fn, env)
+            return _NORETURN
+        if isinstance(st, ast.AugAssign):
+            if not isinstance(st.target, ast.Name) or st.target.id not in env:
+                raise Unfoldable("augmented assignment target")
+            env[st.target.id] = _binop(st.op, env[st.target.id], ev(st.value))
+            return _NORETURN
+        if isinstance(st, ast.Return):
+            return ("return", ev(st.value) if st.value is not None else None)
+        if isinstance(st, ast.Pass):
+            return _NORETURN
+        if isinstance(st, ast.If):
+            return self._run_block(st.body if ev(st.test) else st.orelse, fn, env)
+        if isinstance(st, ast.For):
+            it = ev(st.iter)
+            self._check_plain(it)
+            if isinstance(it, dict):
+                it = list(it)
+            for x in list(it):
+                self._assign(st.target, x, fn, env)
+                r = self._run_block(st.body, fn, env)
+                if r is not _NORETURN:
+                    return r
+            return self._run_block(st.orelse, fn, env)
+        raise Unfoldable("statement kind %s in %s" % (type(st).__name__, fn.name))
 
     def _ext_call(self, dotted, args, kwargs):
         if dotted == "re.compile":
